@@ -348,6 +348,18 @@ def k_holder_reuse(ctx, seed):
                 return ctx.fail("holder.reuse", "foreign_type_accepted_by_a_reused_holder", f"{target}<-{name}", dict(case, trail=trail), observed=repr(res)[:200])
             elif not isinstance(res, (TlvTypeMissmatch, TypeError)):
                 return ctx.fail("holder.reuse", "wrong_error", f"{target}<-{name}/{type(res).__name__}", dict(case, trail=trail), error=repr(res))
+        if generic and r.random() < 0.5:
+            # the held generic TLV is given another type through its public setter: the conversion that worked a moment ago is a
+            # conversion of a foreign TLV now
+            t2 = r.choice([t for t in R.TLV_TYPES if t != TYPE_OF[name]])
+            h.tlv.tlv_type = X.TlvType(t2)
+            trail.append(f"retyped:{name}->{t2}")
+            ok, res = attempt(getattr(h, HOLDER[name]))
+            ctx.ev("holder.reuse")
+            if ok:
+                return ctx.fail("holder.reuse", "foreign_type_accepted_by_a_reused_holder", f"{name}<-retyped", dict(case, trail=trail), observed=repr(res)[:200])
+            if not isinstance(res, (TlvTypeMissmatch, TypeError)):
+                return ctx.fail("holder.reuse", "wrong_error", f"{name}<-retyped/{type(res).__name__}", dict(case, trail=trail), error=repr(res))
 
 
 KINDS = {"generic_status": k_generic_status, "holder_reuse": k_holder_reuse, "defaults": k_defaults, "tlv": k_tlv, "lv": k_lv, "refuse": k_refuse, "concrete": k_concrete, "type_safety": k_type_safety, "status_maps": k_status_maps}
